@@ -91,7 +91,12 @@ func (d *PathDecoder) bodyForFileAndPos(name string, f *hcl.File, pos hcl.Pos) (
 		return nil, &UnknownFileFormatError{Filename: name}
 	}
 
-	if !body.Range().ContainsPos(pos) &&
+	// (hclsyntax lets the root body begin at the first token: positions in
+	// the blanks in front of it belong to the body all the same)
+	inLeadingBlanks := pos.Byte >= 0 && pos.Byte < body.Range().Start.Byte
+
+	if !inLeadingBlanks &&
+		!body.Range().ContainsPos(pos) &&
 		!posEqual(body.Range().Start, pos) &&
 		!posEqual(body.Range().End, pos) {
 
